@@ -7,8 +7,11 @@ class C12(Prop):
     id = "C12"
     title = "UE address, TEID and UPF address are extracted exactly from the setup request"
     lean_module = "Stgutg.Props.C12"
-    gen = ["extract"]
-    theorems = ["Stgutg.Props.C12." + t for t in [
+    extra_modules = ["Stgutg.Props.Glue.stgutg_DecodePDUSessionNASPDU", "Stgutg.Props.Glue.stgutg_DecodePDUSessionResourceSetupRequestTransfer", "Stgutg.Props.Glue.stgutg_FindPDUSessionResourceSetupListSUReq", "Stgutg.Props.Glue.stgutg_EstablishPDU"]
+    gen = ["extract", "procs"]
+    theorems = ["Stgutg.Props.GluePinned." + t for t in [
+        # the glue functions this property depends on are still the text the models were written from (gen procs)
+        "stgutg_DecodePDUSessionNASPDU", "stgutg_DecodePDUSessionResourceSetupRequestTransfer", "stgutg_FindPDUSessionResourceSetupListSUReq", "stgutg_EstablishPDU"]] + ["Stgutg.Props.C12." + t for t in [
         "C12_ip", "C12_ip_pdu", "C12_ip_size",
         "C12_teid_upf_container", "C12_teid_upf",
         "C12_terminates_nas", "C12_terminates_nas_pdu", "model_is_repaired",
